@@ -25,6 +25,7 @@ mod amap;
 mod own;
 mod ctor;
 mod sys;
+mod mord;
 
 use std::io::{BufRead, BufWriter, Write};
 
@@ -59,6 +60,7 @@ fn main() {
         "amap" => Box::new(amap::AmapExec::default()),
         "own" => Box::new(own::OwnExec::default()),
         "sys" => Box::new(sys::SysExec::default()),
+        "mord" => Box::new(mord::MordExec::default()),
         "ctor" => Box::new(ctor::CtorExec::default()),
         _ => {
             eprintln!("unknown module {module}");
@@ -70,7 +72,9 @@ fn main() {
     let tick = std::sync::Arc::new(std::sync::atomic::AtomicU64::new(0));
     {
         let tick = tick.clone();
-        let limit: u64 = std::env::var("VMH_OP_LIMIT_S").ok().and_then(|v| v.parse().ok()).unwrap_or(30);
+        // (one line of the schedule-enumerating modules is a whole scenario: thousands of schedules)
+        let default_limit = if matches!(args[1].as_str(), "sched" | "amap" | "mord") { 3600 } else { 30 };
+        let limit: u64 = std::env::var("VMH_OP_LIMIT_S").ok().and_then(|v| v.parse().ok()).unwrap_or(default_limit);
         std::thread::spawn(move || {
             let mut last = u64::MAX;
             let mut since = std::time::Instant::now();
@@ -87,12 +91,20 @@ fn main() {
             }
         });
     }
+    let markers = std::env::var("VMH_MARKERS").is_ok();
+    let mut opno = 0u64;
     for line in inp.lines() {
         let line = line.expect("read line");
         if line.trim().is_empty() {
             continue;
         }
         let v: serde_json::Value = serde_json::from_str(&line).expect("parse program line");
+        if markers {
+            // a recognisable no-op system call in front of every operation, for runs under strace
+            opno += 1;
+            let msg = format!("OP {opno}");
+            unsafe { libc::write(-1, msg.as_ptr() as *const libc::c_void, msg.len()) };
+        }
         tick.fetch_add(1, std::sync::atomic::Ordering::SeqCst); // odd: inside an operation
         let res = match std::panic::catch_unwind(std::panic::AssertUnwindSafe(|| exec.step(&v))) {
             Ok(r) => r,
